@@ -422,7 +422,7 @@ package bus
 //@   modifies everything
 //@   call RemoveHandler#1: assert[C13] !queue.chseen
 //@   call RemoveHandler#1: assert[C13] arg0 == id
-//@   ensures[C11] events.chclosed
+//@   ensures[C11,C13] events.chclosed
 //@   loop 1:
 //@     invariant c != nil && queue != nil && !queue.chseen && c.endpoint != nil && events != nil && !events.chclosed && !events.chowned && ref(queue) != ref(abort)
 
